@@ -54,7 +54,7 @@ P = {
  "C14": dict(cat="proof", tech="taint of the start time, zero-sum/difference-form and weighted-homogeneity (units) inference on algebraic summaries, mirror symmetry of blocks, row residues of coefficient reads (index arithmetic and raw views), minimiser and adjoint premises re-derived from the solver / adjoint summaries",
    text="Necessary conditions of the four invariances as degree/weight/symmetry facts on the summaries; sufficiency via C02.",
    note="exact arithmetic"),
- "C15": dict(cat="proof", tech="pointer-provenance / ownership abstract interpretation of the copy operations and setters, once per alias configuration of the inputs (own default vs caller's map, workspace present or not, self-assignment) + declared move operations (rvalue sources) + value-class member typing on the instantiated AST",
+ "C15": dict(cat="proof", tech="pointer-provenance / ownership abstract interpretation of the copy operations and setters, once per alias configuration of the source and, for assignment, of the destination's prior state (each re-bindable pointer at the own default vs a caller's map, workspace present or not, self-assignment) + declared move operations (rvalue sources) + value-class member typing on the instantiated AST",
    text="Aliasing after copy is decided from types and assignments alone, hence for every history of copies, assignments, mutation and destruction.",
    note="C++ object semantics; last_error_message_ is a reasoned exception"),
  "C16": dict(cat="proof", tech="extraction and normalisation of the rejection predicates; verdict/message typestate; PPolyND rejection-path state; compile-time witness for the threshold",
